@@ -73,12 +73,22 @@ def gen_case(rng, tier, index):
                 rng.random()
                 start.append([".cfi_def_cfa", [7, 8], None])
                 has_cfa = True
-                first.setdefault("cfi", {}).setdefault("0", [])
-                first["cfi"]["0"] = first["cfi"]["0"] + start
+                # (a procedure may begin behind the first instructions of its
+                # block - patchable-entry nops - and end in front of the last
+                # ones - padding)
+                s0 = 1 if len(first["items"]) >= 3 and \
+                    rng.random() < 0.15 else 0
+                e0 = len(last["items"]) - 1 if len(last["items"]) >= 3 and \
+                    rng.random() < 0.15 else len(last["items"])
+                first.setdefault("cfi", {}).setdefault(str(s0), [])
+                first["cfi"][str(s0)] = first["cfi"][str(s0)] + start
                 depth = 0
                 for b in run:
                     n = len(b["items"])
                     for k in range(1, n + 1):
+                        if (b is first and k <= s0) or \
+                                (b is last and k >= e0):
+                            continue
                         if rng.random() > 0.35:
                             continue
                         r = rng.random()
@@ -106,8 +116,7 @@ def gen_case(rng, tier, index):
                             has_cfa = True
                         b.setdefault("cfi", {}).setdefault(str(k), []
                                                            ).append(d)
-                n = len(last["items"])
-                last.setdefault("cfi", {}).setdefault(str(n), []).append(
+                last.setdefault("cfi", {}).setdefault(str(e0), []).append(
                     [".cfi_endproc", [], None])
     g.edits()
     # patch CFI
@@ -170,6 +179,59 @@ def after_patch_with_trailing_directives(case, eid):
         if kind in ("jmp", "ret", "ijmp", "halt") and any(
                 "raw" in ln for ln in lines[last_i + 1:]):
             return True
+    return False
+
+
+def cfi_patch_into_wholly_deleted_procedure(case):
+    """is a patch that carries CFI inserted into (or at the very end of) a
+    procedure all of whose instructions the same rewrite deletes?"""
+    gone = set()
+    for e in case["edits"]:
+        if e["op"] == "delfn":
+            for bid in next(f["blocks"] for f in case["funcs"]
+                            if f["name"] == e["f"]):
+                gone |= {(bid, k) for k in range(64)}
+        elif e["op"] in ("del", "rep"):
+            gone |= {(e["b"], k) for k in range(e["i"], e["i"] + e["n"])}
+    for sec in case["secs"]:
+        for iv in sec["ivs"]:
+            cur = None         # instructions and boundaries of the open one
+            procs = []
+            for blk in iv["blocks"]:
+                cfi = blk.get("cfi") or {}
+                for k in range(len(blk["items"]) + 1):
+                    for d in cfi.get(str(k), []):
+                        if d[0] == ".cfi_startproc":
+                            cur = {"ins": set(), "pts": set()}
+                        elif d[0] == ".cfi_endproc" and cur is not None:
+                            cur["pts"].add((blk["id"], k))
+                            procs.append(cur)
+                            cur = None
+                    if cur is not None:
+                        cur["pts"].add((blk["id"], k))
+                        if k < len(blk["items"]):
+                            cur["ins"].add((blk["id"], k))
+            for pr in procs:
+                if pr["ins"] and pr["ins"] <= gone and any(
+                        e.get("op") in ("ins", "rep") and
+                        e.get("p", {}).get("cfi_kind") and
+                        (e["b"], e["i"]) in pr["pts"]
+                        for e in case["edits"]):
+                    return True
+    return False
+
+
+def boundary_inside_adjacent_deletion(case, blk, b, i):
+    for e in case["edits"]:
+        if e.get("b") != b or e["op"] not in ("del", "rep"):
+            continue
+        lo, hi = e["i"], e["i"] + e.get("n", 0)
+        if i not in (lo, hi):
+            continue
+        for k, ds in (blk.get("cfi") or {}).items():
+            if lo <= int(k) <= hi and int(k) != i and hi > lo and any(
+                    d[0] in (".cfi_startproc", ".cfi_endproc") for d in ds):
+                return True
     return False
 
 
@@ -271,6 +333,9 @@ def run_case(case):
         e["op"] == "delfn" or e.get("n", 0) > 0) for e in case["edits"])
     if err1:
         ctx = "with-deletion" if deleted_any else "insertions-only"
+        if cfi_patch_into_wholly_deleted_procedure(case):
+            # (F55)
+            ctx += ":cfi-patch-at-a-procedure-deleted-in-the-same-rewrite"
         viol.append({"key": f"cfi:output-does-not-evaluate:{ctx}:"
                             f"{err1.split(':')[1][:40]}",
                      "msg": err1})
@@ -355,7 +420,16 @@ def run_case(case):
             elif after_patch_with_trailing_directives(case, t.patch):
                 pctx = (":after-patch-leaving-through-a-jump-with-trailing-"
                         "directives")
-            if (was is None) != (now is None):
+            if (was is None) != (now is None) and \
+                    boundary_inside_adjacent_deletion(case, blk, b, i):
+                # a procedure boundary stood inside a range that is deleted
+                # right next to the insertion point: it is re-homed to that
+                # point, and on which side of it the patch belongs is not
+                # determined by the statement
+                ctr["dontcare_boundary_rehomed_to_insertion_point"] = \
+                    ctr.get("dontcare_boundary_rehomed_to_insertion_point",
+                            0) + 1
+            elif (was is None) != (now is None):
                 viol.append({
                     "key": "cfi:patch-instruction-" + (
                         "outside-procedure" if now is None
